@@ -418,8 +418,14 @@ Quiescent ==
                         lows == {x \in P : subs[x].low}
                         full == Cardinality(P) >= ps
                     IN F("C17.RejectOnlyWhenFull", s.source = "ratelimit" => (full /\ (s.low \/ lows = {})))
+                       \* one pending low-priority entry is evicted; every submitter
+                       \* waiting on that entry (duplicates share its wait function) is refused
                        \cup F("C17.EvictExactlyOne",
-                              (s.source = "sequencer" /\ full) => (~s.low /\ Cardinality(q.ev) = 1 /\ q.ev \subseteq lows))
+                              (s.source = "sequencer" /\ full) =>
+                                 /\ ~s.low
+                                 /\ Cardinality({subs[x].e : x \in q.ev}) = 1
+                                 /\ {subs[x].e : x \in q.ev} \subseteq {subs[x].e : x \in lows}
+                                 /\ Cardinality(q.ev \cap lows) = 1)
                        \cup F("C17.NoSpuriousEviction", (s.source # "sequencer" \/ ~full) => q.ev = {})
                        \cup F("C17.EvictedAnswer", \A x \in q.ev : subs[x].out = "evicted")
                   ELSE {})
